@@ -99,5 +99,37 @@ def kExportT (a : Arena V) (time : Int) : Option (Arena V × List V × Nat × Li
   let vals ← inorderVals (a.nodes.size + 1) a a.root
   pure (a, vals, a.nodes.size - a.unused.size - 1, tr)
 
+/-! ### map / set: the two mutating operations that call user code (`Ord::cmp` on the way down) -/
+
+/-- `insert_entity` of the map / set, one comparison per visited node -/
+def insertLoopT : Nat → Arena V → Ent V → Nat → List (AEv V) → Option (Arena V × List (AEv V))
+  | 0, _, _, _, _ => none
+  | fuel+1, a, e, index, tr => do
+    let n ← a.node index
+    let tr := ⟨.cmp, n.ent, a⟩ :: tr
+    if e.key < n.ent.key then
+      if n.left == EMPTY then (a.insertAs e index true).map (·, tr) else insertLoopT fuel a e n.left tr
+    else
+      if n.right == EMPTY then (a.insertAs e index false).map (·, tr) else insertLoopT fuel a e n.right tr
+
+def insertT (a : Arena V) (e : Ent V) : Option (Arena V × List (AEv V)) :=
+  if a.root == EMPTY then (a.insertRoot e).map (·, []) else insertLoopT (a.nodes.size + 1) a e a.root []
+
+/-- `find_index` with its comparisons -/
+def findIndexT : Nat → Arena V → Int → Nat → List (AEv V) → Option (Nat × List (AEv V))
+  | 0, _, _, _, _ => none
+  | fuel+1, a, key, i, tr =>
+    if i == EMPTY then some (EMPTY, tr) else do
+      let n ← a.node i
+      let tr := ⟨.cmp, n.ent, a⟩ :: tr
+      if key < n.ent.key then findIndexT fuel a key n.left tr
+      else if n.ent.key < key then findIndexT fuel a key n.right tr
+      else some (i, tr)
+
+/-- `delete(key)`: the descent calls user code, `delete_index` does not -/
+def deleteT (a : Arena V) (key : Int) : Option (Arena V × List (AEv V)) := do
+  let (i, tr) ← findIndexT (a.nodes.size + 1) a key a.root []
+  if i != EMPTY then (a.deleteIndex i).map (·, tr) else some (a, tr)
+
 end Arena
 end ITree
